@@ -84,6 +84,7 @@ class Inst:
     funcs: list = field(default_factory=list)     # real functions encoded
     bound: str = ""
     gi_args: list = field(default_factory=list)   # goto-instrument args applied to the linked binary (logged)
+    gen_files: list = field(default_factory=list)  # [(filename, callable -> text)] generated into the instance dir (added to -I) before compiling
     pre_link: list = field(default_factory=list)  # [(repo TU list, goto-instrument args)] see build()
     cost: float = 1.0           # scheduling weight (expensive first)
     nb: int = 0
@@ -146,6 +147,11 @@ def compile_goto(prop, inst, extra_defs=None):
         defs.update(extra_defs)
     common = ["-D" + x for x in BASE_DEFS] + _defs_args(defs) + ["-I" + x for x in INCS] + inst.cflags
     log = ""
+    if inst.gen_files:
+        for fn, fun in inst.gen_files:
+            with open(os.path.join(d, fn), "w") as f:
+                f.write(fun())
+        common.append("-I" + d)
     objs = []
     if inst.pre_link:
         # [(name, [repo TUs], [stub files under harness], [goto-instrument args])]
@@ -262,6 +268,11 @@ def native_build(prop, inst, extra_defs=None, tag="native"):
     if inst.asan:
         cmd += ["-fsanitize=address,undefined", "-fno-sanitize-recover=undefined", "-fno-omit-frame-pointer"]
     cmd += ["-D" + x for x in BASE_DEFS] + _defs_args(defs) + ["-I" + x for x in INCS]
+    if inst.gen_files:
+        for fn, fun in inst.gen_files:
+            with open(os.path.join(d, fn), "w") as f:
+                f.write(fun())
+        cmd.append("-I" + d)
     cmd += [c for c in inst.cflags if not c.startswith("-I" + os.path.join(HARNESS, "shim"))]
     cmd += [os.path.join(HARNESS, inst.harness), os.path.join(HARNESS, "vk_native.c")]
     cmd += [os.path.join(HARNESS, m) for m in inst.native_models]
